@@ -154,7 +154,9 @@ func realLegs(tier string, seed uint64, realBin string, a *core.Agg) ([]*core.Vi
 	jobs := make([]*job, n)
 	for i := range jobs {
 		t := core.NewTape(core.Mix(seed, uint64(1<<40+i)))
-		w, _ := world.Generate(t, world.GenOpt{MinPkgs: 3, MaxPkgs: 6, NeedDepth2: true, CleanChance: 2, LineDirectives: true, DirExclude: true, StdImports: true})
+		// every third world carries an exclude-paths pattern naming one of its directories:
+		// the working directory of the tool differs between the real drivers
+		w, _ := world.Generate(t, world.GenOpt{MinPkgs: 3, MaxPkgs: 6, NeedDepth2: true, CleanChance: 2, LineDirectives: true, DirExclude: true, ForceDirExclude: i%3 == 0, StdImports: true})
 		jobs[i] = &job{i: i, w: w, dir: filepath.Join(base, fmt.Sprintf("w%d", i)), single: w.Pkgs[t.Draw(len(w.Pkgs))].Path}
 	}
 	var wg sync.WaitGroup
